@@ -20,6 +20,6 @@ LEVEL = ('proof',
  'Diagnostic::display, for every text and every offset, no size bound. The model is tied to the code on '
  'every run by running the real LineIndex and the real Diagnostic::display against the compiled Lean model '
  'on all strings <= 6 (thorough: <= 8) symbols over {a,\\n,\\r,\\t,é} x every offset plus random UTF-8 up to '
- '64 KiB, and against an independent oracle written from the property statement.',
+ '64 KiB, and against an independent oracle written from the property statement. The path from the file on disk to the printed position is exercised too: programs with one type error at a known offset, written with LF / CRLF / mixed line ends, tabs and multi-byte characters, are compiled by the real CLI and the printed `file:line:col` must be the position of that offset in the file as written.',
  '§4 C25',
  'Lean 4 proof (induction over the text) + differential correspondence check against the real crate')
